@@ -273,3 +273,128 @@ Proof.
   split; [exact G|]. split; [|exact X].
   eapply Forall_impl; [|exact L]. intros k Hk. now apply leafy_finished.
 Qed.
+
+(* ---- develop_lattice: the element cells of a lattice ---- *)
+(* what an element cell made from lattice cell [c] looks like: same material,
+   density, importance, universe and (empty) provenance; no fill when the array
+   entry names the lattice's own universe, else filled with the entry *)
+Definition element_of (c : cell) (univs : list Z) (c' : cell) : Prop :=
+  c_mat c' = c_mat c /\ c_dens c' = c_dens c /\ c_imp c' = c_imp c /\ c_univ c' = c_univ c /\
+  c_origin c' = c_origin c /\
+  (c_fill c' = None /\ In (c_univ c) univs \/
+   exists u, c_fill c' = Some u /\ u <> c_univ c /\ u <> 0%Z /\ In u univs).
+
+Lemma lattice_elements_spec c : forall univs next l n,
+  lattice_elements c next univs = (l, n) ->
+  n = (next + Z.of_nat (List.length l))%Z /\
+  (forall k c', In (k, c') l -> (next < k <= n)%Z /\ element_of c univs c') /\
+  map (fun kc => c_fill (snd kc)) l =
+    map (fun u => if (u =? c_univ c)%Z then None else Some u) (filter (fun u => negb (u =? 0)%Z) univs).
+Proof.
+  induction univs as [|u r IH]; intros next l n H; simpl in H.
+  - inversion H; subst. simpl. split; [lia|]. split; [intros k c' []|reflexivity].
+  - destruct (u =? 0)%Z eqn:E0.
+    + destruct (IH next l n H) as [H1 [H2 H3]]. split; [exact H1|]. split.
+      * intros k c' Hin. destruct (H2 k c' Hin) as [Hk [A [B [C [D [E F]]]]]].
+        split; [exact Hk|]. repeat split; auto.
+        destruct F as [[F1 F2]|[u' [F1 [F2 [F3 F4]]]]]; [left; split; [exact F1 | now right]|].
+        right. exists u'. repeat split; auto. now right.
+      * simpl. rewrite E0. exact H3.
+    + destruct (lattice_elements c (next + 1) r) as [l' n'] eqn:Er. inversion H; subst l n. clear H.
+      destruct (IH _ _ _ Er) as [H1 [H2 H3]]. split; [|split].
+      * simpl List.length. lia.
+      * intros k c' [Hin|Hin].
+        -- inversion Hin; subst k c'. split; [lia|]. unfold element_of. simpl.
+           repeat split; auto. destruct (u =? c_univ c)%Z eqn:Eu.
+           ++ apply Z.eqb_eq in Eu. left. split; [reflexivity | now left].
+           ++ right. exists u. apply Z.eqb_neq in Eu. apply Z.eqb_neq in E0. repeat split; auto.
+        -- destruct (H2 k c' Hin) as [Hk [A [B [C [D [E F]]]]]]. split; [lia|]. repeat split; auto.
+           destruct F as [[F1 F2]|[u' [F1 [F2 [F3 F4]]]]]; [left; split; [exact F1 | now right]|].
+           right. exists u'. repeat split; auto. now right.
+      * simpl. rewrite E0. simpl. now rewrite H3.
+Qed.
+
+Lemma lookup_remove_other {A} key k (d : dict A) : k <> key -> lookup k (remove_key key d) = lookup k d.
+Proof.
+  intros Hne. induction d as [|[k' v] r IH]; simpl; [reflexivity|].
+  destruct (key =? k')%Z eqn:E.
+  - apply Z.eqb_eq in E. subst k'. destruct (k =? key)%Z eqn:E'; [apply Z.eqb_eq in E'; contradiction | reflexivity].
+  - simpl. now rewrite IH.
+Qed.
+
+Lemma lookup_none_not_in {A} k (d : dict A) : lookup k d = None -> ~ In k (map fst d).
+Proof.
+  induction d as [|[k' v] r IH]; simpl; [tauto|].
+  destruct (k =? k')%Z eqn:E; [discriminate|]. apply Z.eqb_neq in E. intros H [H'|H']; [now apply E | now apply IH].
+Qed.
+
+Lemma lookup_remove_same {A} key (d : dict A) : NoDup (map fst d) -> lookup key (remove_key key d) = None.
+Proof.
+  induction d as [|[k' v] r IH]; simpl; intros Hnd; [reflexivity|].
+  inversion Hnd as [|? ? Hk Hr]; subst.
+  destruct (key =? k')%Z eqn:E.
+  - apply Z.eqb_eq in E. subst k'. destruct (lookup key r) eqn:El; [|reflexivity].
+    elim Hk. apply lookup_in in El. apply in_map_iff. exists (key, a). auto.
+  - simpl. rewrite E. auto.
+Qed.
+
+Lemma lookup_in_elements c univs next l n k :
+  lattice_elements c next univs = (l, n) ->
+  lookup k l <> None -> (next < k <= n)%Z.
+Proof.
+  intros H Hk. destruct (lookup k l) as [c'|] eqn:E; [|now elim Hk].
+  apply lookup_in in E. destruct (lattice_elements_spec c univs next l n H) as [_ [H2 _]].
+  now destruct (H2 k c' E).
+Qed.
+
+(* develop_lattice on a dictionary of parsed cells (distinct keys, as in a
+   Python dict): the other cells stay, the new cells are elements of the
+   lattice cell, the lattice cell itself is gone, and the dictionary is again
+   without provenance and below the key counter, so that the provenance
+   theorem applies to the developed dictionary *)
+Theorem develop_lattice_spec : forall d next key univs c d' n,
+  NoDup (map fst d) -> pristine d -> fresh (d, next) -> lookup key d = Some c ->
+  develop_lattice (d, next) key univs = Ok (d', n) ->
+  pristine d' /\ fresh (d', n) /\ lookup key d' = None /\
+  (forall k, k <> key -> forall x, lookup k d = Some x -> lookup k d' = Some x) /\
+  (forall k c', lookup k d' = Some c' ->
+     lookup k d = Some c' \/ (lookup k d = None /\ (next < k <= n)%Z /\ element_of c univs c')) /\
+  (* one element per non-zero array entry, in order *)
+  (exists l, d' = remove_key key (d ++ l) /\
+     map (fun kc => c_fill (snd kc)) l =
+       map (fun u => if (u =? c_univ c)%Z then None else Some u) (filter (fun u => negb (u =? 0)%Z) univs)).
+Proof.
+  intros d next key univs c d' n Hnd Hpr Hfr Hkey H. unfold develop_lattice in H. rewrite Hkey in H.
+  destruct (lattice_elements c next univs) as [l n'] eqn:El. inversion H; subst d' n'. clear H.
+  destruct (lattice_elements_spec c univs next l n El) as [Hn [Hel Hfills]].
+  unfold fresh in Hfr. cbn [fst snd] in Hfr.
+  assert (Hkn : (key <= next)%Z) by (apply Hfr; rewrite Hkey; discriminate).
+  assert (Hkl : lookup key l = None).
+  { destruct (lookup key l) eqn:E; [|reflexivity].
+    assert (next < key <= n)%Z by (eapply lookup_in_elements; [exact El | rewrite E; discriminate]). lia. }
+  (* the lattice cell is gone *)
+  assert (Hgone : lookup key (remove_key key (d ++ l)) = None).
+  { clear -Hnd Hkl Hkey. induction d as [|[k' v] r IH]; simpl in *; [discriminate|].
+    inversion Hnd as [|? ? Hk Hr]; subst.
+    destruct (key =? k')%Z eqn:E.
+    - apply Z.eqb_eq in E. subst k'. rewrite lookup_app, Hkl.
+      destruct (lookup key r) eqn:E2; [|reflexivity].
+      elim Hk. apply lookup_in in E2. apply in_map_iff. exists (key, c0). auto.
+    - simpl. rewrite E. auto. }
+  assert (Hchar : forall k c', lookup k (remove_key key (d ++ l)) = Some c' ->
+            lookup k d = Some c' \/ (lookup k d = None /\ (next < k <= n)%Z /\ element_of c univs c')).
+  { intros k c' Hk. destruct (Z.eq_dec k key) as [->|Hne]; [rewrite Hgone in Hk; discriminate|].
+    rewrite (lookup_remove_other key k _ Hne), lookup_app in Hk.
+    destruct (lookup k d) as [x|] eqn:E; [left; exact Hk|]. right. split; [reflexivity|].
+    apply lookup_in in Hk. exact (Hel k c' Hk). }
+  split; [|split; [|split; [|split; [|split]]]].
+  - intros k c' Hk. destruct (Hchar k c' Hk) as [H|[_ [_ [_ [_ [_ [_ [Ho _]]]]]]]]; [eapply Hpr; eauto|].
+    rewrite Ho. eapply Hpr; eauto.
+  - intros k Hk. cbn [fst snd] in *. destruct (lookup k (remove_key key (d ++ l))) as [c'|] eqn:E; [|now elim Hk].
+    destruct (Hchar k c' E) as [H|[_ [H _]]]; [|lia].
+    assert (k <= next)%Z by (apply Hfr; rewrite H; discriminate). lia.
+  - exact Hgone.
+  - intros k Hne x Hx. rewrite (lookup_remove_other key k _ Hne), lookup_app, Hx. reflexivity.
+  - exact Hchar.
+  - exists l. split; [reflexivity | exact Hfills].
+Qed.
